@@ -707,3 +707,121 @@ class EagerReductionTensor(Contract):
         cl.append(("reduces_exactly_the_intended_event_dims", data is ctx.x.data and absd == want))
         cl.append(("keepdims_passed_through", keep == kd))
         return cl
+
+
+# ==================================================================================================
+# C04 / C01: Tensor.eager_subs, renaming / slicing branch
+# ==================================================================================================
+class RecTensorM(TensorM):
+    """Tensor constructed inside eager_subs: its recursive eager_subs call is recorded (callee = the same contract)"""
+
+    def eager_subs(self, subs):
+        return ("recursive-eager_subs", self, tuple(subs))
+
+
+RecTensorM.__model_class__ = TensorM
+
+
+@register
+class TensorEagerSubsRename(Contract):
+    """Tensor.eager_subs, branch taken when some value is a Variable or a Slice: every input substituted by a Variable is
+    renamed IN PLACE (same position, same domain, data untouched), every input substituted by a Slice is renamed to the
+    slice's name, gets the slice's size, and the data is strided along exactly that dimension -- for every index
+    result.data[idx] == self.data[idx with start + step*i at sliced dims] -- and the remaining (non-renaming) pairs are
+    handed to a recursive call unchanged.
+    The clause is split by the known finding C04/rename-onto-existing-input: when a new name coincides with an input of
+    self that is not itself substituted away, two dimensions collapse onto one name instead of taking the diagonal.
+    structure bound: <= 3 inputs, event rank <= 1."""
+
+    props = ("C04", "C01")
+    file = "funsor/tensor.py"
+    qualname = "Tensor.eager_subs"
+    max_paths = 6000
+    mutants = (
+        ("slice applied to the wrong dimension", "slices[i] = v.slice", "slices[0] = v.slice"),
+        ("sliced input keeps its old size", "                        d = v.inputs[v.name]\n", ""),
+    )
+
+    KINDS = ["-", "var:x", "var:y", "var:a", "var:b", "slice:x", "num"]
+
+    def structures(self, tier):
+        for n in (1, 2, 3):
+            names = NAMES[:n]
+            for ks in itertools.product(self.KINDS, repeat=n):
+                if not any(k.startswith(("var", "slice")) for k in ks):
+                    continue
+                if any(k in ("var:" + nm,) for k, nm in zip(ks, names)):
+                    continue  # renaming a name to itself
+                if tier == "quick" and n == 3 and sum(1 for k in ks if k != "-") > 2:
+                    continue
+                tg = [k.split(":")[1] for k in ks if ":" in k]
+                if len(tg) != len(set(tg)):
+                    continue  # repeated target names go through materialize (diagonal): not this branch's renaming
+                for e in (0, 1):
+                    yield "inputs=%s,subs=%s,event=%d" % (names, ",".join(ks), e), (names, ks, e)
+
+    def build(self, p, st):
+        names, ks, e = st
+        x, bs, es = mk_tensor(p, tuple(names), e)
+        subs = []
+        ctx = Ctx(namespace=None, x=x, bs=bs, es=es, st=st, p=p, slices={})
+        from .c_terms import VariableM, mk_slice_self
+
+        for nm, k in zip(names, ks):
+            if k == "-":
+                continue
+            if k.startswith("var:"):
+                subs.append((nm, VariableM(k[4:], x.inputs[nm])))
+            elif k.startswith("slice:"):
+                s = mk_slice_self(p, k[6:])
+                p.assume(s.dtype == bs[nm])
+                ctx.slices[nm] = s
+                subs.append((nm, s))
+            else:
+                v = p.fresh_int("num_" + nm)
+                p.assume(And(0 <= v, v < bs[nm]))
+                subs.append((nm, NumberM(v, bs[nm])))
+        ctx.subs = subs
+        from .c_terms import SliceM, VariableM
+        from collections import Counter
+
+        def to_funsor(v, dom=None):
+            return v
+
+        ctx.namespace = dict(TENSOR_NS, Tensor=RecTensorM, Variable=VariableM, Slice=SliceM, Counter=Counter, to_funsor=to_funsor, enumerate=enumerate, any=core.sany, slice=slice, list=list)
+        x.materialize = lambda v: ("materialized", v)
+        ctx.args = (x, tuple(subs))
+        return ctx
+
+    def collides(self, ctx):
+        names, ks, e = ctx.st
+        new = [k.split(":")[1] for k in ks if ":" in k]
+        kept = [nm for nm, k in zip(names, ks) if k == "-" or k == "num"]
+        return any(n in kept for n in new)
+
+    def ensures(self, ctx, result):
+        names, ks, e = ctx.st
+        tag = "[new name collides with a remaining input]" if self.collides(ctx) else ""
+        ok = isinstance(result, tuple) and result[0] == "recursive-eager_subs" and isinstance(result[1], TensorM)
+        if not ok:
+            return [("renames_then_recurses" + tag, False)]
+        t, rest = result[1], result[2]
+        exp_names = [k.split(":")[1] if ":" in k else nm for nm, k in zip(names, ks)]
+        exp_sizes = [ctx.slices[nm].size if nm in ctx.slices else ctx.bs[nm] for nm in names]
+        cl = [("inputs_renamed_in_place" + tag, list(t.inputs) == exp_names and And(*[deep_eq(t.inputs[n].dtype, s) for n, s in zip(exp_names, exp_sizes)]))]
+        cl.append(("remaining_pairs_recursed_unchanged" + tag, [k for k, v in rest] == [nm for nm, k in zip(names, ks) if k == "num"]))
+        shape = tuple(exp_sizes) + ctx.es
+        if len(t.data.shape) == len(shape):
+            idx = fresh_index(ctx.p, shape)
+            src = tuple(ctx.slices[nm].slice.start + ctx.slices[nm].slice.step * i if nm in ctx.slices else i for nm, i in zip(names, idx)) + tuple(idx[len(names):])
+            cl.append(("every_value_stays_with_its_renamed_input" + tag, Implies(in_range(idx, shape), t.data.get(idx) == ctx.x.data.get(src))))
+        else:
+            cl.append(("every_value_stays_with_its_renamed_input" + tag, False))
+        return cl
+
+    def may_raise(self, ctx, etype):
+        # with a colliding name the constructor's size assertion may fire: allowed (declines)
+        return self.collides(ctx)
+
+    def allow_vacuous(self, st):
+        return False
